@@ -523,6 +523,13 @@ func registerReflectModel(e *Engine) {
 		if rt == nil {
 			rt = &RType{Kind: rkFunc}
 		}
+		if body, ok := a[1].(*FuncV); ok && body.Made == nil {
+			if sig, ok := rt.GoType.(*types.Signature); ok {
+				mf := *body
+				mf.Made = sig
+				return &RVal{Kind: rkFunc, Typ: rt, Val: &mf}
+			}
+		}
 		return &RVal{Kind: rkFunc, Typ: rt, Val: a[1]}
 	}
 
@@ -695,6 +702,37 @@ func registerReflectModel(e *Engine) {
 			idx++
 		}
 		return TupleV{zero, FalseT}
+	})
+	// Method(i) on a type: the i-th method of the sorted method set (exported ones for non-interfaces)
+	tm("Method", func(st *State, rt *RType, a []Value) Value {
+		gt := goTypeOf(rt)
+		if gt == nil {
+			st.unsupported("Type.Method on a type without a Go type")
+		}
+		want := st.concreteInt(a[0], "method index")
+		ms := st.E.P.Prog.MethodSets.MethodSet(gt)
+		idx := 0
+		for i := 0; i < ms.Len(); i++ {
+			sel := ms.At(i)
+			if !sel.Obj().Exported() && !types.IsInterface(gt) {
+				continue
+			}
+			if idx == want {
+				sig := sel.Type().(*types.Signature)
+				ps := []*types.Var{}
+				if !types.IsInterface(gt) {
+					ps = append(ps, types.NewVar(token.NoPos, nil, "", gt))
+				}
+				for j := 0; j < sig.Params().Len(); j++ {
+					ps = append(ps, sig.Params().At(j))
+				}
+				ft := types.NewSignatureType(nil, nil, nil, types.NewTuple(ps...), sig.Results(), sig.Variadic())
+				return &StructV{F: []Value{StrT(sel.Obj().Name()), StrT(""), rtypeIface(st.E.rtypeOfGo(ft)), &RVal{}, st.E.intTerm(big.NewInt(int64(idx)), types.Typ[types.Int])}}
+			}
+			idx++
+		}
+		st.rpanic("reflect: Method index out of range")
+		return nil
 	})
 	tm("NumMethod", func(st *State, rt *RType, a []Value) Value {
 		gt := goTypeOf(rt)
@@ -897,6 +935,13 @@ func registerReflectModel(e *Engine) {
 				return BoolT(x.Obj == nil)
 			case *ChanV:
 				return BoolT(x.Obj == nil)
+			case *RVal:
+				// a reflect.Value held in a struct field: zero iff it is the invalid Value
+				return BoolT(x.Kind == rkInvalid)
+			case *RType:
+				return FalseT
+			case nil:
+				return TrueT
 			case *StructV:
 				r := TrueT
 				for _, f := range x.F {
@@ -972,6 +1017,8 @@ func registerReflectModel(e *Engine) {
 			}
 		case v.Kind != x.Kind:
 			st.rpanic("reflect.Set: value of type %s is not assignable to type %s", rkNames[x.Kind], rkNames[v.Kind])
+		case v.Typ != nil && x.Typ != nil && v.Typ.GoType != nil && x.Typ.GoType != nil && !types.AssignableTo(x.Typ.GoType, v.Typ.GoType):
+			st.rpanic("reflect.Set: value of type %s is not assignable to type %s", x.Typ.GoType, v.Typ.GoType)
 		default:
 			st.store(v.Ref, p)
 		}
@@ -1152,9 +1199,21 @@ func registerReflectModel(e *Engine) {
 		return &RVal{Kind: et.Kind, Typ: et, Val: val}
 	})
 	vm("SetMapIndex", func(st *State, v *RVal, a []Value) Value {
-		mapType(st, v, "SetMapIndex")
+		mt := mapType(st, v, "SetMapIndex")
 		m, _ := st.rpayload(v).(*MapV)
-		k := st.rpayload(asRVal(st, a[0]))
+		// a concrete value stored under an interface-typed key or element is boxed
+		box := func(x *RVal, t types.Type) Value {
+			p := st.rpayload(x)
+			if _, isI := p.(*IfaceV); !isI && x.Kind != rkInterface && types.IsInterface(t) {
+				gt := x.Typ.GoType
+				if gt == nil {
+					gt = kindGoType(x.Kind)
+				}
+				return &IfaceV{T: gt, V: p}
+			}
+			return p
+		}
+		k := box(asRVal(st, a[0]), mt.Key())
 		e := asRVal(st, a[1])
 		if e.Kind == rkInvalid {
 			if m != nil && m.Obj != nil {
@@ -1165,7 +1224,7 @@ func registerReflectModel(e *Engine) {
 		if m == nil {
 			m = &MapV{}
 		}
-		st.mapUpdate(m, k, st.rpayload(e))
+		st.mapUpdate(m, k, box(e, mt.Elem()))
 		return nil
 	})
 	vm("MapKeys", func(st *State, v *RVal, a []Value) Value {
@@ -1331,6 +1390,53 @@ func registerReflectModel(e *Engine) {
 		rt := st.E.rtypeOfGo(types.NewSignatureType(nil, nil, nil, sig.Params(), sig.Results(), sig.Variadic()))
 		return &RVal{Kind: rt.Kind, Typ: rt, Val: &FuncV{Fn: fn, Recv: st.rpayload(v)}}
 	})
+	// the sorted (exported, for concrete types) method set of a value's type, as reflect numbers it
+	valueMethods := func(st *State, v *RVal) (types.Type, []*types.Selection) {
+		gt := v.Typ.GoType
+		if gt == nil {
+			st.unsupported("Method on a value without a Go type")
+		}
+		ms := st.E.P.Prog.MethodSets.MethodSet(gt)
+		var out []*types.Selection
+		for i := 0; i < ms.Len(); i++ {
+			if ms.At(i).Obj().Exported() || types.IsInterface(gt) {
+				out = append(out, ms.At(i))
+			}
+		}
+		return gt, out
+	}
+	vm("NumMethod", func(st *State, v *RVal, a []Value) Value {
+		_, ms := valueMethods(st, v)
+		return st.E.intTerm(big.NewInt(int64(len(ms))), types.Typ[types.Int])
+	})
+	vm("Method", func(st *State, v *RVal, a []Value) Value {
+		gt, ms := valueMethods(st, v)
+		i := st.concreteInt(a[0], "method index")
+		if i < 0 || i >= len(ms) {
+			st.rpanic("reflect: Method index out of range")
+		}
+		sel := ms[i]
+		sig := sel.Type().(*types.Signature)
+		rt := st.E.rtypeOfGo(types.NewSignatureType(nil, nil, nil, sig.Params(), sig.Results(), sig.Variadic()))
+		recv := st.rpayload(v)
+		if types.IsInterface(gt) {
+			// the method of the dynamic value
+			iv, ok := recv.(*IfaceV)
+			if !ok || iv.T == nil {
+				st.rpanic("reflect: Method on nil interface value")
+			}
+			dsel := st.E.P.Prog.MethodSets.MethodSet(iv.T).Lookup(sel.Obj().Pkg(), sel.Obj().Name())
+			if dsel == nil {
+				st.unsupported("Value.Method: dynamic type %s lacks %s", iv.T, sel.Obj().Name())
+			}
+			sel, recv = dsel, iv.V
+		}
+		fn := st.E.P.Prog.MethodValue(sel)
+		if fn == nil {
+			st.unsupported("Value.Method: abstract method %s", sel.Obj().Name())
+		}
+		return &RVal{Kind: rt.Kind, Typ: rt, Val: &FuncV{Fn: fn, Recv: recv}}
+	})
 	vm("Call", func(st *State, v *RVal, a []Value) Value {
 		fv, ok := st.rpayload(v).(*FuncV)
 		if !ok {
@@ -1344,6 +1450,11 @@ func registerReflectModel(e *Engine) {
 			}
 		}
 		var r Value
+		if fv.Made != nil {
+			body := *fv
+			body.Made = nil
+			fv = &body
+		}
 		if isMakeFuncBody(fv) {
 			o := st.newObject(nil, "callargs", &ArrayV{E: args})
 			var sl Value = &SliceV{}
@@ -1353,8 +1464,23 @@ func registerReflectModel(e *Engine) {
 			return st.Call(fv, []Value{sl}, nil)
 		}
 		var plain []Value
-		for _, x := range args {
-			plain = append(plain, st.rpayload(x.(*RVal)))
+		for k, x := range args {
+			rv := x.(*RVal)
+			pv := st.rpayload(rv)
+			// a concrete value passed for an interface parameter is boxed, as reflect's Call does
+			if ps := fv.Fn.Signature.Params(); k < ps.Len() && !(fv.Fn.Signature.Variadic() && k == ps.Len()-1) && types.IsInterface(ps.At(k).Type()) {
+				if _, isI := pv.(*IfaceV); !isI && rv.Kind != rkInterface {
+					gt := rv.Typ.GoType
+					if gt == nil {
+						gt = kindGoType(rv.Kind)
+					}
+					if it, ok := ps.At(k).Type().Underlying().(*types.Interface); ok && gt != nil && !types.Implements(gt, it) {
+						st.rpanic("reflect: Call using %s as type %s", gt, ps.At(k).Type())
+					}
+					pv = &IfaceV{T: gt, V: pv}
+				}
+			}
+			plain = append(plain, pv)
 		}
 		if sig := fv.Fn.Signature; sig.Variadic() {
 			// pack the trailing arguments into the variadic slice
